@@ -26,7 +26,7 @@ type Canon struct {
 	stack map[ssa.Value]bool
 }
 
-const maxDepth = 9
+const maxDepth = 48
 
 func newCanon(p *Program, fn *ssa.Function) *Canon {
 	return &Canon{p: p, fn: fn, memo: map[ssa.Value]string{}, stack: map[ssa.Value]bool{}}
@@ -45,16 +45,24 @@ func (c *Canon) termD(v ssa.Value, d int) string {
 		return "↺"
 	}
 	if d > maxDepth {
-		return "…"
+		return "…⊥"
 	}
 	c.stack[v] = true
 	s := c.render(v, d)
 	delete(c.stack, v)
 	if len(s) > 220 {
 		h := sha1.Sum([]byte(s))
-		s = s[:90] + "…#" + hex.EncodeToString(h[:4])
+		rs := []rune(s)
+		if len(rs) > 90 {
+			rs = rs[:90]
+		}
+		cyc := ""
+		if strings.Contains(s, "↺") {
+			cyc = "↺" // still depends on where the enclosing cycle was entered: never memoised
+		}
+		s = string(rs) + "…#" + hex.EncodeToString(h[:4]) + cyc
 	}
-	if !strings.Contains(s, "↺") && !strings.Contains(s, "…") {
+	if !strings.Contains(s, "↺") && !strings.Contains(s, "…⊥") {
 		c.memo[v] = s
 	}
 	return s
@@ -342,6 +350,9 @@ func (c *Canon) calleeName(cc *ssa.CallCommon) string {
 
 func (c *Canon) call(cc *ssa.CallCommon, d int) string {
 	name := c.calleeName(cc)
+	if strings.HasPrefix(name, "fmt.") || name == "errors.New" {
+		return name + "(…)" // message texts are not part of any rule
+	}
 	var args []string
 	if cc.IsInvoke() {
 		args = append(args, c.termD(cc.Value, d+1))
